@@ -893,7 +893,14 @@ func (h *sentPacketHandler) OnLossDetectionTimeout(now monotime.Time) error {
 	// However, there's no way to reset the timer in the connection.
 	// When OnLossDetectionTimeout is called, we therefore need to make sure that there are
 	// actually packets outstanding.
-	if h.bytesInFlight == 0 && !h.peerCompletedAddressValidation {
+	// [UQUIC] The anti-deadlock probe (RFC 9002, 6.2.2.1) is due whenever the timer was armed for it, i.e. when
+	// nothing is outstanding in the Initial and Handshake spaces and the handshake is not confirmed - not only
+	// when bytes_in_flight is 0: a client with an unacknowledged 0-RTT flight has bytes in flight (their ACKs
+	// travel in 1-RTT packets it may have lost or could not decrypt yet), can be congestion limited when it
+	// has to send its Finished (SendMode: ACKs only), and without the probe the timer kept firing without
+	// sending anything until both sides ran into their idle timeouts.
+	if !h.peerCompletedAddressValidation &&
+		(h.bytesInFlight == 0 || (!h.handshakeConfirmed && !h.hasOutstandingCryptoPackets())) {
 		h.ptoCount++
 		h.numProbesToSend++
 		if h.initialPackets != nil {
